@@ -26,8 +26,10 @@ RULE = ('random typed constant-expression trees (depth <= 5, all 4 unary / 18 bi
 EXPLANATION = ('c27_eval_exact / c27_converted: unbounded Coq theorems that the evaluator and the packed global image '
                'equal CIntSpec on every expression (literals, casts, 4 unary, 18 binary operators, ?:) and every data '
                'model; c27_sema_agrees_all: the typing of CSemantics (Model/CSema.elab, with c83990b) is C typing. The '
-               '*_refuted and *_orig theorems document the defects of the earlier evaluator and typing rule. sizeof, '
-               'enum constants, floating constants, pointers in constant expressions are not modelled.')
+               '*_refuted and *_orig theorems document the defects of the earlier evaluator and typing rule. The '
+               'EnumType branch of eval_binop is translated too (c27_enum_branch_same_operators: the same operators as '
+               'the integer branch); enum-typed operands are otherwise covered by search in every constant context. '
+               'sizeof, floating constants, pointers in constant expressions are not modelled.')
 TRUSTED = ['tools/py2coq.py + the op_map extractor in tools/props/c27.py (fail-closed, cross-checked per run)',
            'hand models Model/CEval.v, Model/CSema.v (cross-checked per run against the real typed AST and the real '
            'global image on generated programs)',
